@@ -135,6 +135,7 @@ Proof.
   apply (trans_cons G A G); [apply (trans_weak A G A A); [apply G_A|auto|apply t_ws_A; unfold gap_sugar; destruct (space_call (space0 c)); reflexivity]|].
   destruct x; try discriminate.
   - (* a string *) cbn [Fmt0.pexp]. apply t_val. reflexivity.
+  - (* a long string *) cbn [Fmt0.pexp]. apply t_val. reflexivity.
   - (* a table: its opening brace forgets what came before *)
     intros s Hs. assert (E : run s (pexp d (ETable fs)) = run (mk false false HNo) (pexp d (ETable fs))).
     { destruct fs as [|f fs]; [apply (t_from_brace s (mk false false HNo) [kw "}"] Hs eq_refl)|].
@@ -162,6 +163,7 @@ Proof.
   - apply (trans_weak A O OG G); [apply O_A|apply OG_G|apply t_other; reflexivity].
   - apply (trans_weak A O G G); [apply O_A|auto|apply t_val; reflexivity].
   - apply (trans_weak A O G G); [apply O_A|auto|apply t_val; reflexivity].
+  - (* long string *) apply (trans_weak A O G G); [apply O_A|auto|apply t_val; reflexivity].
   - (* p.n *) apply (trans_app O G G); [apply IHe|]. apply (trans_cons G OG G); [apply (trans_weak A G OG OG); [apply G_A|auto|kwo]|].
     apply (trans_weak A OG G G); [intros s0 H0; apply (O_A s0 (OG_O s0 H0))|auto|apply t_val; reflexivity].
   - (* p[k] *) apply (trans_app O G G); [apply IHe1|]. apply (trans_cons G OG G); [apply (trans_weak A G OG OG); [apply G_A|auto|kwo]|].
